@@ -332,6 +332,8 @@ pub struct Expect {
     pub lvl: Option<Option<emit::Level>>,
     pub trace_id: Option<Option<emit::TraceId>>,
     pub span_id: Option<Option<emit::SpanId>>,
+    /// formatting under non-default format specs
+    pub specs: Option<SpecExpect>,
     /// If the primary expectation fails but this one holds, the outcome is one the property text
     /// leaves open (with the label given): counted as don't-care instead of a failure.
     pub alt: Option<(Box<Expect>, &'static str)>,
@@ -360,6 +362,7 @@ impl Expect {
             lvl: None,
             trace_id: None,
             span_id: None,
+            specs: None,
             alt: None,
         }
     }
@@ -387,30 +390,134 @@ pub struct Orig {
     pub a: Result<String, String>,
     /// sval_json of the original
     pub b: Result<String, String>,
+    /// `Display` of the original under every spec of `SPECS`
+    pub pspec: Vec<String>,
+    /// `Debug` of the original under every spec of `SPECS` followed by `DEBUG_ONLY_SPECS`
+    pub dspec: Vec<String>,
 }
 
 pub fn orig<T: fmt::Display + fmt::Debug + Serialize + sval::Value + ?Sized>(x: &T) -> Orig {
-    Orig { display: format!("{x}"), debug: format!("{x:?}"), a: sj(x), b: vj(x) }
+    Orig { display: format!("{x}"), debug: format!("{x:?}"), a: sj(x), b: vj(x), pspec: display_table(x), dspec: debug_table(x) }
+}
+
+// ---------------------------------------------------------------------------------------------
+// formatter specs: the CONSUMER's format spec (alternate flag, width, fill, alignment, sign, zero padding,
+// precision, debug-hex) must reach the original value's own `Display` / `Debug` impl
+
+/// Format specs that exist for both traits: `{:S}` (Display) and `{:S?}` (Debug).
+pub const SPECS: [&str; 11] = ["", "#", ">12", "<8", "^9", "08", "+", ".3", "*>10.2", "+09.1", "#012.1"];
+/// Debug-only flags: `{:x?}`, `{:#X?}` (indices `SPECS.len()..` of a debug table).
+pub const DEBUG_ONLY_SPECS: [&str; 2] = ["x", "#X"];
+
+/// How the spec at index `i` of a debug table is spelled.
+pub fn debug_spec_name(i: usize) -> String {
+    format!("{{:{}?}}", if i < SPECS.len() { SPECS[i] } else { DEBUG_ONLY_SPECS[i - SPECS.len()] })
+}
+
+pub fn display_spec_name(i: usize) -> String {
+    format!("{{:{}}}", SPECS[i])
+}
+
+/// `Display` of `x` under every spec of `SPECS` (same order).
+pub fn display_table<T: fmt::Display + ?Sized>(x: &T) -> Vec<String> {
+    vec![
+        format!("{}", x),
+        format!("{:#}", x),
+        format!("{:>12}", x),
+        format!("{:<8}", x),
+        format!("{:^9}", x),
+        format!("{:08}", x),
+        format!("{:+}", x),
+        format!("{:.3}", x),
+        format!("{:*>10.2}", x),
+        format!("{:+09.1}", x),
+        format!("{:#012.1}", x),
+    ]
+}
+
+/// `Debug` of `x` under every spec of `SPECS` followed by `DEBUG_ONLY_SPECS` (same order).
+pub fn debug_table<T: fmt::Debug + ?Sized>(x: &T) -> Vec<String> {
+    vec![
+        format!("{:?}", x),
+        format!("{:#?}", x),
+        format!("{:>12?}", x),
+        format!("{:<8?}", x),
+        format!("{:^9?}", x),
+        format!("{:08?}", x),
+        format!("{:+?}", x),
+        format!("{:.3?}", x),
+        format!("{:*>10.2?}", x),
+        format!("{:+09.1?}", x),
+        format!("{:#012.1?}", x),
+        format!("{:x?}", x),
+        format!("{:#X?}", x),
+    ]
+}
+
+/// What formatting the captured `Value` under non-default format specs must give.
+#[derive(Debug, Clone)]
+pub struct SpecExpect {
+    /// the capture promises a typed number / boolean / string (default capture, `as_value`): the clause is
+    /// kept after buffering; the debug-hex flags are not asserted (integers are stored widened)
+    pub typed: bool,
+    /// `format!("{:S}", value)` for every `S` of `SPECS`
+    pub via_display: Vec<String>,
+    /// `format!("{:S?}", value)` for every `S` of `SPECS` + `DEBUG_ONLY_SPECS`; `None`: the text does not
+    /// say what the `Debug` impl of a value captured this way shows
+    pub via_debug: Option<Vec<String>>,
+}
+
+impl SpecExpect {
+    /// captured through `Debug` (`as_debug`, `dbg!`): both traits of the value forward to the original's `Debug`
+    pub fn debug_capture(dspec: &[String]) -> SpecExpect {
+        SpecExpect { typed: false, via_display: dspec[..SPECS.len()].to_vec(), via_debug: Some(dspec.to_vec()) }
+    }
+    /// captured through `Display` (`as_display`, default capture of a non-primitive)
+    pub fn display_capture(pspec: &[String]) -> SpecExpect {
+        SpecExpect { typed: false, via_display: pspec.to_vec(), via_debug: None }
+    }
+    /// a typed number / boolean / string: it formats as the original does, through either trait
+    pub fn typed_capture(pspec: &[String], dspec: &[String]) -> SpecExpect {
+        SpecExpect { typed: true, via_display: pspec.to_vec(), via_debug: Some(dspec.to_vec()) }
+    }
 }
 
 /// Expectation for a value of a primitive-like static type (number, bool, string, char).
 pub fn expect_prim(x: &Orig, kind: Kind, typed: Option<Typed>, mode: Mode, is_str_slice: bool) -> Expect {
     let mut e = Expect::new("v", kind);
+    // format specs are not asserted under the well-known keys / `as_error` (a string there is the only
+    // primitive case and the text is about ids, levels and error chains)
+    let spec_clause = !matches!(mode, Mode::WellKnown | Mode::Error);
     let default = |e: &mut Expect| match &typed {
         // numbers, booleans and strings come back as the same typed value ...
         Some(t) => {
             e.typed = Some(t.clone());
             if !matches!(t, Typed::F32(_)) {
                 e.json = Some(JsonExpect { by: Fw::Typed, a: x.a.clone(), b: x.b.clone(), nested_seq: false });
+                // ... which formats exactly as the original does, whatever spec the consumer uses
+                if spec_clause {
+                    e.specs = Some(SpecExpect::typed_capture(&x.pspec, &x.dspec));
+                }
             }
         }
         // ... anything else displays as its Display text
-        None => e.display = Some(x.display.clone()),
+        None => {
+            e.display = Some(x.display.clone());
+            if spec_clause {
+                e.specs = Some(SpecExpect::display_capture(&x.pspec));
+            }
+        }
     };
     match mode {
         Mode::Default | Mode::Value | Mode::ValueI | Mode::WellKnown | Mode::Error => default(&mut e),
-        Mode::Display | Mode::DisplayI => e.display = Some(x.display.clone()),
-        Mode::Debug | Mode::DebugI => e.display = Some(x.debug.clone()),
+        Mode::Display | Mode::DisplayI => {
+            e.display = Some(x.display.clone());
+            e.specs = Some(SpecExpect::display_capture(&x.pspec));
+        }
+        Mode::Debug | Mode::DebugI => {
+            e.display = Some(x.debug.clone());
+            e.specs = Some(SpecExpect::debug_capture(&x.dspec));
+        }
         Mode::Serde | Mode::SerdeI => e.json = Some(JsonExpect { by: Fw::Serde, a: x.a.clone(), b: x.b.clone(), nested_seq: false }),
         Mode::Sval | Mode::SvalI => e.json = Some(JsonExpect { by: Fw::Sval, a: x.a.clone(), b: x.b.clone(), nested_seq: false }),
     }
@@ -430,7 +537,11 @@ pub fn expect_prim(x: &Orig, kind: Kind, typed: Option<Typed>, mode: Mode, is_st
 pub fn expect_structured<T: fmt::Debug + Serialize + sval::Value + ?Sized>(x: &T, mode: Mode, nested_seq: bool) -> Expect {
     let mut e = Expect::new("v", Kind::Structured);
     match mode {
-        Mode::Debug | Mode::DebugI => e.display = Some(format!("{x:?}")),
+        Mode::Debug | Mode::DebugI => {
+            let dspec = debug_table(x);
+            e.display = Some(dspec[0].clone());
+            e.specs = Some(SpecExpect::debug_capture(&dspec));
+        }
         Mode::Serde | Mode::SerdeI => e.json = Some(JsonExpect { by: Fw::Serde, a: sj(x), b: vj(x), nested_seq }),
         Mode::Sval | Mode::SvalI => e.json = Some(JsonExpect { by: Fw::Sval, a: sj(x), b: vj(x), nested_seq }),
         _ => unreachable!("mode {mode:?} is not stamped out for structured values"),
@@ -633,6 +744,76 @@ fn eval_json(j: &JsonExpect, o: &Obs, ev: &mut Eval, at: &str) {
     }
 }
 
+pub const SPEC_DEBUG_READ: &str = "fmt-spec:debug-capture/unbuffered-read";
+pub const SPEC_DEBUG_PRETTY: &str = "fmt-spec:debug-capture/pretty-form-differs-from-compact";
+pub const SPEC_DISPLAY_READ: &str = "fmt-spec:display-capture/unbuffered-read";
+pub const SPEC_TYPED_READ: &str = "fmt-spec:typed-capture/unbuffered-read";
+pub const SPEC_TYPED_BUFFERED: &str = "fmt-spec:typed-capture/after-buffering";
+pub const SPEC_TYPED_OWNED: &str = "fmt-spec:typed-capture/owned-value-itself";
+pub const SPEC_DONTCARE: &str = "dontcare:format-flags-after-buffering-a-formatted-capture";
+
+/// The consumer's format spec must reach the original's own `Display` / `Debug` impl: the captured value
+/// formatted under `{:S}` / `{:S?}` equals the original formatted under the spec its capture mode maps to.
+fn eval_specs(sp: &SpecExpect, so: &crate::obs::SpecObs, kind: Kind, buffered: bool, ev: &mut Eval, at: &str) {
+    let n = SPECS.len();
+    let typed = sp.typed && matches!(kind, Kind::Number | Kind::Bool | Kind::Str);
+    let compare = |got_display: &[String], got_debug: &[String], hex: bool| -> Vec<(bool, usize, String, String)> {
+        let mut out = Vec::new();
+        for i in 0..n {
+            if got_display[i] != sp.via_display[i] {
+                out.push((false, i, got_display[i].clone(), sp.via_display[i].clone()));
+            }
+        }
+        if let Some(w) = &sp.via_debug {
+            for i in 0..(if hex { w.len() } else { n }) {
+                if got_debug[i] != w[i] {
+                    out.push((true, i, got_debug[i].clone(), w[i].clone()));
+                }
+            }
+        }
+        out
+    };
+    let report = |ev: &mut Eval, what: &str, diffs: Vec<(bool, usize, String, String)>| {
+        for (dbg, i, got, want) in diffs {
+            if dbg {
+                ev.fail("format-spec/debug-trait-read-differs", format!("{at}: format!({:?}, {what}) = {got:?}, the capture mode promises {want:?}", debug_spec_name(i)));
+            } else {
+                ev.fail("format-spec/display-trait-read-differs", format!("{at}: format!({:?}, {what}) = {got:?}, the capture mode promises {want:?}", display_spec_name(i)));
+            }
+        }
+    };
+    if !buffered {
+        // the original's own impl is still what formats: every flag must arrive there
+        ev.classes.push(if typed {
+            SPEC_TYPED_READ
+        } else if sp.via_debug.is_some() {
+            SPEC_DEBUG_READ
+        } else {
+            SPEC_DISPLAY_READ
+        });
+        if let (Some(w), false) = (&sp.via_debug, typed) {
+            if w[0] != w[1] {
+                ev.classes.push(SPEC_DEBUG_PRETTY);
+            }
+        }
+        // (a typed integer is stored widened -- i32 as i64, in an owned value as i128 -- and `{:x?}` of a
+        // negative number shows the storage width: the debug-hex flags are not asserted for typed captures)
+        report(ev, "value", compare(&so.display, &so.debug, !typed));
+    } else if typed {
+        // numbers, booleans and strings survive buffering unchanged
+        ev.classes.push(SPEC_TYPED_BUFFERED);
+        report(ev, "value", compare(&so.display, &so.debug, false));
+    } else if !compare(&so.display, &so.debug, true).is_empty() {
+        // a formatted capture is buffered as text: flags that are not plain padding act on the text
+        ev.dont_care.push(SPEC_DONTCARE);
+    }
+    // "copied into an owned value": the OwnedValue's own impls, for numbers, booleans and strings
+    if let (Some((od, og)), true) = (&so.owned, typed) {
+        ev.classes.push(SPEC_TYPED_OWNED);
+        report(ev, "value.to_owned()", compare(od, og, false));
+    }
+}
+
 fn eval_one(exp: &Expect, o: &Obs, buffered: bool, ev: &mut Eval, at: &str) {
     if exp.null && !o.is_null {
         ev.fail("null/not-null", format!("{at}: expected the null value, got {:?}", o.display));
@@ -649,6 +830,9 @@ fn eval_one(exp: &Expect, o: &Obs, buffered: bool, ev: &mut Eval, at: &str) {
     }
     if let Some(t) = &exp.typed {
         eval_typed(t, o, buffered, ev, at);
+    }
+    if let (Some(sp), Some(so)) = (&exp.specs, &o.specs) {
+        eval_specs(sp, so, exp.kind, buffered, ev, at);
     }
     if let Some(chain) = &exp.err_chain {
         if buffered {
@@ -792,5 +976,14 @@ pub fn want_for(case: &Case) -> Want {
             Subj::Derived(d) => crate::derived::nested_seq(d),
             _ => false,
         };
-    Want { ids: matches!(case.subj, Subj::Wk(_)), as_map: case.as_map, nohint, enc: case.enclosing }
+    // non-default format specs: only where the capture mode has a formatting clause; the OwnedValue copy
+    // only for the small subjects (numbers, booleans, strings: what the text promises for owned copies)
+    let specs = match case.mode {
+        Mode::Default | Mode::Value | Mode::ValueI | Mode::Display | Mode::DisplayI | Mode::Debug | Mode::DebugI => match &case.subj {
+            Subj::Node(_) | Subj::Derived(_) | Subj::Err(_) | Subj::DynErr(_) | Subj::Wk(_) => 1,
+            _ => 2,
+        },
+        _ => 0,
+    };
+    Want { ids: matches!(case.subj, Subj::Wk(_)), as_map: case.as_map, nohint, enc: case.enclosing, specs }
 }
